@@ -84,6 +84,9 @@ pub enum CurOp {
     IsEnd(u8),
     Seek(u8, Seek),
     Insert(u8, Vec<B>),
+    /// fault: the caller's iterator delivers `items[..fail_at]`, then panics (caught by the caller);
+    /// the last field selects what `size_hint` claims
+    InsertFailing(u8, Vec<B>, u8, u8),
     CloneCursor(u8, u8),
     Cmp(u8, u8),
     Helper(HelperOp),
@@ -384,7 +387,12 @@ impl Engine for LexSim {
                         7 => {
                             let k = rng.below(4) as usize;
                             len += k;
-                            CurOp::Insert(c, (0..k).map(|_| gen_token(rng)).collect())
+                            if rng.chance(1, 5) {
+                                let k = k.max(1);
+                                CurOp::InsertFailing(c, (0..k).map(|_| gen_token(rng)).collect(), rng.below(k as u64) as u8, rng.below(4) as u8)
+                            } else {
+                                CurOp::Insert(c, (0..k).map(|_| gen_token(rng)).collect())
+                            }
                         }
                         8 => CurOp::CloneCursor(c, rng.below(3) as u8),
                         9 => CurOp::Cmp(c, rng.below(3) as u8),
@@ -535,6 +543,11 @@ impl Engine for LexSim {
                             c.push(s);
                         }
                     }
+                }
+                CurOp::InsertFailing(cu, v, k, h) if v.len() > 1 => {
+                    let mut s = sc.clone();
+                    s.ops[i] = CurOp::InsertFailing(*cu, v[..v.len() - 1].to_vec(), (*k).min(v.len() as u8 - 2), *h);
+                    c.push(s);
                 }
                 CurOp::Seek(cu, sk) => {
                     let simpler = match sk {
@@ -712,6 +725,44 @@ fn exec_c14(sc: &LexSc, log: &mut Log, out: &mut Outcome, cur_op: &Cell<&'static
                 raw.insert(&cursors[c], new.iter().map(|b| b.os()));
                 ev!(log, "{step} insert c{c} {} items", new.len());
             }
+            CurOp::InsertFailing(c, new, fail_at, hint) => {
+                let c = *c as usize % 3;
+                cur_op.set("insert");
+                shape.add(20 + *hint as u64);
+                out.count("fault.insert_iterator_panics");
+                let at = mpos[c];
+                let fail_at = (*fail_at as usize).min(new.len());
+                let it = FailingIter { items: new.iter().map(|b| b.os()).collect(), i: 0, fail_at, hint: *hint };
+                let r = std::panic::catch_unwind(std::panic::AssertUnwindSafe(|| raw.insert(&cursors[c], it)));
+                match r {
+                    Ok(()) => fail!("cursor-op-result", "insert-failing-iterator", "step {step}: insert returned normally although the caller's iterator panicked at item {fail_at}"),
+                    Err(payload) => {
+                        if payload.downcast_ref::<InjectedFault>().is_none() {
+                            std::panic::resume_unwind(payload);
+                        }
+                    }
+                }
+                // a growable list that was being spliced when the caller's iterator failed still holds every
+                // earlier item in order, with some prefix of the delivered items at the cursor; cursors keep
+                // their index
+                let mut all = raw.cursor();
+                let now: Vec<Vec<u8>> = raw.remaining(&mut all).map(|o| osb(o).to_vec()).collect();
+                ev!(log, "{step} insert c{c} failing at {fail_at} of {} -> {} items", new.len(), now.len());
+                out.comparisons += 1;
+                let extra = now.len() as i64 - model.len() as i64;
+                let ok = extra >= 0
+                    && extra as usize <= fail_at
+                    && now[..at] == model[..at]
+                    && now[at..at + extra as usize].iter().zip(new.iter()).all(|(a, b)| *a == b.0)
+                    && now[at + extra as usize..] == model[at..];
+                if !ok {
+                    fail!("cursor-op-result", "insert-failing-iterator", "step {step}: after an insert at index {at} whose iterator panicked at item {fail_at}, the list is {:?}; it was {:?} and {:?} had been delivered", now.iter().map(|x| esc(x)).collect::<Vec<_>>(), model.iter().map(|x| esc(x)).collect::<Vec<_>>(), new[..fail_at].iter().map(|x| esc(&x.0)).collect::<Vec<_>>());
+                }
+                if extra > 0 {
+                    out.count("probe.failing_insert_kept_a_prefix");
+                }
+                model = now;
+            }
             CurOp::CloneCursor(a, b) => {
                 let a = *a as usize % 3;
                 let b = *b as usize % 3;
@@ -760,6 +811,36 @@ fn exec_c14(sc: &LexSc, log: &mut Log, out: &mut Outcome, cur_op: &Cell<&'static
     out.shape = shape.get();
 }
 
+/// Payload of the panic raised by the caller-side iterator fault.
+struct InjectedFault;
+
+struct FailingIter {
+    items: Vec<std::ffi::OsString>,
+    i: usize,
+    fail_at: usize,
+    hint: u8,
+}
+
+impl Iterator for FailingIter {
+    type Item = std::ffi::OsString;
+    fn next(&mut self) -> Option<Self::Item> {
+        if self.i == self.fail_at {
+            std::panic::panic_any(InjectedFault);
+        }
+        self.i += 1;
+        self.items.get(self.i - 1).cloned()
+    }
+    fn size_hint(&self) -> (usize, Option<usize>) {
+        let left = self.items.len() - self.i.min(self.items.len());
+        match self.hint {
+            0 => (0, None),
+            1 => (left, Some(left)),
+            2 => (self.fail_at.saturating_sub(self.i), None),
+            _ => (left.min(1), None),
+        }
+    }
+}
+
 fn op_name(op: &CurOp) -> &'static str {
     match op {
         CurOp::Next(_) => "next",
@@ -770,6 +851,7 @@ fn op_name(op: &CurOp) -> &'static str {
         CurOp::IsEnd(_) => "is_end",
         CurOp::Seek(..) => "seek",
         CurOp::Insert(..) => "insert",
+        CurOp::InsertFailing(..) => "insert-failing-iterator",
         CurOp::CloneCursor(..) => "clone",
         CurOp::Cmp(..) => "cmp",
         CurOp::Helper(_) => "helper",
